@@ -596,8 +596,8 @@ async fn c18e2e_run(line: &str, pki: &'static Pki) -> String {
         }
         log3.borrow_mut().push(format!("parks={parks}"));
     });
-    // everything happens in virtual time; 600 virtual seconds bound a run that got stuck
-    let stuck = tokio::time::sleep(Duration::from_millis(600_000));
+    // everything happens in virtual time; 100 virtual seconds (>= 5 calls x 5 s + arrivals + delays) bound a run that got stuck
+    let stuck = tokio::time::sleep(Duration::from_millis(100_000));
     tokio::pin!(stuck);
     let all = async {
         loop {
@@ -610,7 +610,7 @@ async fn c18e2e_run(line: &str, pki: &'static Pki) -> String {
                     break;
                 }
             }
-            tokio::time::sleep(Duration::from_millis(1)).await;
+            tokio::time::sleep(Duration::from_millis(20)).await;
         }
     };
     tokio::select! {
